@@ -29,3 +29,37 @@ struct smt_rational { long num; long den; };
 static smt::rational mk_rat(long n, long d) { smt::rational r; r.num = n; r.den = d; return r; }
 static smt_rational view(const smt::rational &r) { smt_rational v; v.num = r.num; v.den = r.den; return v; }
 static std::string show(const smt::rational &r) { return std::to_string(r.num) + "/" + std::to_string(r.den); }
+
+struct smt_inf_rational { smt_rational rat; smt_rational inf; };
+#include "infrat_spec.h"
+static smt::inf_rational mk_inf(long rn, long rd, long in, long id) { smt::inf_rational x; x.rat = mk_rat(rn, rd); x.inf = mk_rat(in, id); return x; }
+static smt_inf_rational view(const smt::inf_rational &x) { smt_inf_rational v; v.rat = view(x.rat); v.inf = view(x.inf); return v; }
+static std::string show(const smt::inf_rational &x) { return show(x.rat) + " + " + show(x.inf) + "eps"; }
+
+// lin: rebuilt from slots  base: n, then (key, num, den)*, base+20/21 constant term
+static smt::lin mk_lin(int base)
+{
+  smt::lin l;
+  for (long i = 0; i < S[base]; i++) l.vars.emplace((smt::var)S[base + 1 + 3 * i], mk_rat(S[base + 2 + 3 * i], S[base + 3 + 3 * i]));
+  l.known_term = mk_rat(S[base + 20], S[base + 21]);
+  return l;
+}
+static smt::rational coeff(const smt::lin &l, smt::var v) { auto it = l.vars.find(v); return it == l.vars.end() ? smt::rational(0) : it->second; }
+static std::string show(const smt::lin &l)
+{
+  std::string s;
+  for (const auto &t : l.vars) s += show(t.second) + "*x" + std::to_string(t.first) + " + ";
+  return s + show(l.known_term);
+}
+template <typename F>
+static bool lin_all_vars(const smt::lin &r, const smt::lin &a, const smt::lin &b, F f)
+{
+  std::map<smt::var, int> ks;
+  for (const auto &t : r.vars) ks[t.first] = 1;
+  for (const auto &t : a.vars) ks[t.first] = 1;
+  for (const auto &t : b.vars) ks[t.first] = 1;
+  ks[12345] = 1;
+  for (const auto &k : ks) if (!f(k.first)) return false;
+  return true;
+}
+static bool lin_coeffs_wf(const smt::lin &l) { for (const auto &t : l.vars) if (!wf_rat(view(t.second))) return false; return wf_rat(view(l.known_term)); }
